@@ -210,21 +210,23 @@ theorem c05_T2_rten (f : RtenFile) (c : RtenConst) {shape : List Nat} {len : Nat
         · unfold fromStorageOffset at h
           split at h
           · cases h
-          · next byteLen hbl =>
-            split at h
+          · split at h
             · cases h
-            · next stop hstop =>
+            · next byteLen hbl =>
               split at h
-              · next hle =>
-                obtain ⟨e1, e2, wf⟩ := tryFromData_ok h
-                refine ⟨e1, wf, ⟨tdo, htdo, ?_⟩, fun idx hv => wf.in_bounds hv⟩
-                have a1 := checkedAdd_some hoff
-                have a2 := checkedAdd_some hstop
-                have a3 := div_mul_le_toNat byteLen c.ty.size
-                rw [UInt64.le_iff_toNat_le] at hle
-                rw [e2]
-                omega
               · cases h
+              · next stop hstop =>
+                split at h
+                · next hle =>
+                  obtain ⟨e1, e2, wf⟩ := tryFromData_ok h
+                  refine ⟨e1, wf, ⟨tdo, htdo, ?_⟩, fun idx hv => wf.in_bounds hv⟩
+                  have a1 := checkedAdd_some hoff
+                  have a2 := checkedAdd_some hstop
+                  have a3 := div_mul_le_toNat byteLen c.ty.size
+                  rw [UInt64.le_iff_toNat_le] at hle
+                  rw [e2]
+                  omega
+                · cases h
   · next n hd =>
     rw [hd]
     split at h
@@ -240,22 +242,26 @@ theorem c05_T2_rten_stored_exact {size : U} {shape : List U} {offset slen : U} {
   unfold fromStorageOffset at h
   split at h
   · cases h
-  · next byteLen hbl =>
+  · next n hn =>
     split at h
     · cases h
-    · next stop hstop =>
+    · next byteLen hbl =>
       split at h
-      · next hle =>
-        obtain ⟨_, e2, wf⟩ := tryFromData_ok h
-        have p := checkedProd_some hbl
-        have a2 := checkedAdd_some hstop
-        rw [UInt64.le_iff_toNat_le] at hle
-        have hlen : len = prod (M.toNs shape) := by
-          rw [e2, UInt64.toNat_div, p, Nat.mul_div_cancel_left _ hs]
-        refine ⟨hlen, ?_⟩
-        rw [Nat.mul_comm]
-        omega
       · cases h
+      · next stop hstop =>
+        split at h
+        · next hle =>
+          obtain ⟨_, e2, wf⟩ := tryFromData_ok h
+          have p := (checkedProd_one_eq hn).2
+          have q := checkedMul_some hbl
+          have a2 := checkedAdd_some hstop
+          rw [UInt64.le_iff_toNat_le] at hle
+          have hlen : len = prod (M.toNs shape) := by
+            rw [e2, UInt64.toNat_div, q, p, Nat.mul_div_cancel _ hs]
+          refine ⟨hlen, ?_⟩
+          rw [← p, ← q]
+          omega
+        · cases h
 
 /-- Non-vacuity of T2 (.rten): a stored 2×2 f32 constant at offset 36 of a 100-byte file, an
 inline constant, and an empty stored constant with a zero dimension. -/
@@ -334,6 +340,43 @@ theorem c05_onnx_graph (cs : List OnnxInit) (hi : ∀ c ∈ cs, ∀ d ∈ c.dims
   intro r hr
   obtain ⟨a, hm, ha⟩ := (c05_loadAll _ c05_T3_onnx_no_panic cs).2 rs h r hr
   exact (c05_T2_onnx a (hi a hm) ha).2.2.1
+
+/-- **(c) negative ONNX dims** are always rejected with the "invalid shape" error, before any
+data is looked at. -/
+theorem c05_onnx_negative_dim_rejected (c : OnnxInit) (h : ∃ d ∈ c.dims, d < 0) :
+    loadConstant c = .err .shape := by
+  unfold loadConstant
+  rw [onnxShape_none_iff_neg.mpr h]
+
+/-- **(d) completeness of the range check**: a stored constant whose bytes would end past the
+end of the file — in particular whenever `offset + size * product(dims)` does not fit in 64
+bits — is rejected with "invalid tensor data offset"; nothing wraps into range. -/
+theorem c05_rten_out_of_file_rejected (size : U) (shape : List U) (offset slen : U)
+    (h : slen.toNat < offset.toNat + prod (M.toNs shape) * size.toNat) :
+    fromStorageOffset size shape offset slen = .err .offset := by
+  unfold fromStorageOffset
+  split
+  · rfl
+  · next n hn =>
+    have p := (checkedProd_one_eq hn).2
+    split
+    · rfl
+    · next byteLen hbl =>
+      have q := checkedMul_some hbl
+      split
+      · rfl
+      · next stop hstop =>
+        have a := checkedAdd_some hstop
+        split
+        · next hle =>
+          rw [UInt64.le_iff_toNat_le] at hle
+          rw [← p, ← q] at h
+          omega
+        · rfl
+
+/-- Non-vacuity: `2^64` one-byte elements at offset 5 of a 408-byte file. -/
+example : (408 : U).toNat < (5 : U).toNat +
+    prod (M.toNs [65536, 65536, 65536, 65536]) * (1 : U).toNat := by decide
 
 /-! ## The code before the C05 fixes -/
 
@@ -421,6 +464,149 @@ theorem c05_T2_rten_old (ovf : Bool) (f : RtenFile) (c : RtenConst) {shape : Lis
     · cases h
     · obtain ⟨e1, e2, wf⟩ := fromData_ok h
       exact ⟨e1, wf, e2⟩
+
+/-- **The fix is conservative (stored constants)**: wherever the old release-build code did not
+panic, the fixed code returns exactly the same outcome — the same constant or the same error. -/
+theorem c05_fix_conservative_stored (size : U) (shape : List U) (offset slen : U)
+    (hs : size = 1 ∨ size = 4)
+    (h : Old.fromStorageOffset false size shape offset slen ≠ .panic) :
+    fromStorageOffset size shape offset slen =
+      Old.fromStorageOffset false size shape offset slen := by
+  have hI : isizeMax = 9223372036854775807 := rfl
+  have addN : ∀ a b : U, (a + b).toNat = (a.toNat + b.toNat) % 18446744073709551616 := M.add_toNat
+  have mulN : ∀ a b : U, (a * b).toNat = a.toNat * b.toNat % 18446744073709551616 := M.mul_toNat
+  have ltN : ∀ a : U, a.toNat < 18446744073709551616 := M.toNat_lt_W
+  unfold Old.fromStorageOffset at h ⊢
+  rw [prodMode_false] at h ⊢
+  simp only [mulMode, addMode, Bool.false_eq_true, false_and, if_false, UInt64.one_mul] at h ⊢
+  generalize hn : M.prod shape = n at h ⊢
+  by_cases hr : offset ≤ offset + n * size ∧ offset + n * size ≤ slen
+  · -- old is in range: `from_data` did not panic, so the shape is accepted
+    simp only [hr, and_self, if_true] at h ⊢
+    have hsub : offset + n * size - offset = n * size := by
+      apply UInt64.toNat_inj.mp
+      rw [UInt64.toNat_sub_of_le _ _ hr.1]
+      have := addN offset (n * size)
+      have h1 := hr.1
+      rw [UInt64.le_iff_toNat_le] at h1
+      have := ltN (n * size)
+      have := ltN offset
+      omega
+    rw [hsub] at h ⊢
+    unfold fromData at h ⊢
+    cases hm : M.tryFromData shape (n * size / size) with
+    | error e => rw [hm] at h; exact absurd rfl h
+    | ok l =>
+      have wf := M_tryFromData_ok hm
+      have hfit : prodNZ (M.toNs shape) ≤ isizeMax := by
+        have := wf.accepted.shape_fits
+        rwa [shapeOf_contigDims] at this
+      have hle := prod_le_prodNZ (M.toNs shape)
+      have hP : prod (M.toNs shape) = (n * size / size).toNat := wf.len_eq
+      obtain ⟨n', hn'⟩ := checkedProd_of_prodNZ shape 1 (by
+        have one : (1 : U).toNat = 1 := rfl
+        rw [one, Nat.one_mul]; show _ < 18446744073709551616; omega)
+      obtain ⟨e1, e2⟩ := checkedProd_one_eq hn'
+      rw [hn] at e1
+      subst e1
+      rw [UInt64.toNat_div, mulN] at hP
+      have hsz : size.toNat = 1 ∨ size.toNat = 4 := by
+        rcases hs with rfl | rfl
+        · exact Or.inl rfl
+        · exact Or.inr rfl
+      have hmul : n'.toNat * size.toNat < wordSize := by
+        show _ < 18446744073709551616
+        rw [e2] at hP ⊢
+        rcases hsz with h1 | h4
+        · rw [h1] at hP ⊢; omega
+        · rw [h4] at hP ⊢; omega
+      have hadd : offset.toNat + (n' * size).toNat < wordSize := by
+        show _ < 18446744073709551616
+        have h1 := hr.1
+        rw [UInt64.le_iff_toNat_le, addN] at h1
+        have := ltN (n' * size)
+        have := ltN offset
+        omega
+      unfold fromStorageOffset
+      rw [hn']
+      simp only [checkedMul, hmul, if_true, checkedAdd, hadd, hr.2]
+      unfold tryFromData
+      rw [hm]
+  · -- old: "invalid tensor data offset"
+    simp only [hr, if_false] at h ⊢
+    unfold fromStorageOffset
+    split
+    · rfl
+    · next n' hn' =>
+      obtain ⟨e1, e2⟩ := checkedProd_one_eq hn'
+      rw [hn] at e1
+      subst e1
+      split
+      · rfl
+      · next byteLen hb =>
+        split
+        · rfl
+        · next stop hstop =>
+          have b1 : byteLen = n' * size := by
+            unfold checkedMul at hb; split at hb <;> cases hb; rfl
+          have b2 : stop = offset + byteLen := by
+            unfold checkedAdd at hstop; split at hstop <;> cases hstop; rfl
+          have a := checkedAdd_some hstop
+          subst b1
+          subst b2
+          split
+          · next hle =>
+            exfalso
+            apply hr
+            refine ⟨?_, hle⟩
+            rw [UInt64.le_iff_toNat_le, a]
+            omega
+          · rfl
+
+/-- **The fix is conservative (whole `add_graph_constant`)**: on every constant for which the
+old release-build loader did not panic, the fixed loader answers identically. -/
+theorem c05_fix_conservative (f : RtenFile) (c : RtenConst)
+    (h : Old.addGraphConstant false f c ≠ .panic) :
+    addGraphConstant f c = Old.addGraphConstant false f c := by
+  obtain ⟨dims, ty, data⟩ := c
+  unfold Old.addGraphConstant at h ⊢
+  unfold addGraphConstant
+  cases data with
+  | stored off =>
+    simp only at h ⊢
+    cases ht : f.tensorDataOffset with
+    | none => rfl
+    | some tdo =>
+      simp only [ht] at h ⊢
+      cases ha : checkedAdd tdo off with
+      | none => rfl
+      | some o =>
+        simp only [ha] at h ⊢
+        by_cases hty : ty = .other
+        · simp only [hty, if_true]
+        · simp only [hty, if_false] at h ⊢
+          refine c05_fix_conservative_stored _ _ _ _ ?_ h
+          cases ty <;> simp_all [RType.size]
+  | inline n =>
+    simp only at h ⊢
+    by_cases hty : ty = .other
+    · simp only [hty, if_true]
+    · simp only [hty, if_false] at h ⊢
+      unfold fromData at h ⊢
+      unfold tryFromData
+      cases hm : M.tryFromData dims n with
+      | ok l => rfl
+      | error e => rw [hm] at h; exact absurd rfl h
+
+/-- An empty stored f32 constant with shape `[2^31, 2^31, 0]` (non-zero dims multiply to
+`2^62 ≤ isize::MAX`, times 4 would overflow) loads with the old and with the fixed code; a
+fold that starts from the element size — the first version of the fix — would reject it. -/
+theorem c05_fix_keeps_empty_constants :
+    addGraphConstant ⟨some 400, 408⟩ ⟨[2147483648, 2147483648, 0], .f32, .stored 8⟩ =
+      .ok [2147483648, 2147483648, 0] 0 ∧
+    Old.addGraphConstant false ⟨some 400, 408⟩ ⟨[2147483648, 2147483648, 0], .f32, .stored 8⟩ =
+      .ok [2147483648, 2147483648, 0] 0 ∧
+    checkedProd [2147483648, 2147483648, 0] 4 = none := by decide
 
 /-- The stored-constant path of the old loader composed with the tensor constructor from
 BEFORE the C06 fix (`M.Old.tryFromData`, wrapping `min_data_len`). -/
